@@ -362,7 +362,9 @@ impl Builder {
 
         let mut header = self.header.take().unwrap_or_default();
 
-        if self.length.is_some() {
+        if let Some(length) = self.length {
+            let length = length.to_be_bytes();
+            header[LENGTH..LENGTH + length.len()].copy_from_slice(length.as_slice());
             return Ok(header);
         }
 
